@@ -14,7 +14,18 @@ table of `API.configure`, `parseReady`/`generateOutcome` = target readiness) is 
   F  every subset of generator sections x requested targets x declaration kinds x clean;
   G  edge texts: every free-text setting of the live schema (type string without pattern/format/enumeration, and lists of
      such) x every edge text (empty, blank, texts that read as number / boolean / null / JSON, texts containing the separators
-     of the spellings) x every source spelling, the edge-valued leaves always travelling through the spelling under test.
+     of the spellings, characters outside ASCII and outside the BMP) x every source spelling, the edge-valued leaves always
+     travelling through the spelling under test;
+  H  histories: request sequences on ONE `API` object (whose generator instances are shared by all contexts made from it): several
+     contexts — complete, partial (a target key with the section of one of its generators missing), without `generate` section —
+     parsed and asked to generate any number of times in any interleaving, contexts made anew in between; each context writes
+     below its own output directories, so that what a `generate` wrote tells whose settings the generators worked with.
+
+A file format is a language, not one serialiser's output: in B, C and G every tree is also written in other *lexical styles* of
+each format (`cfgsys.STYLES`: JSON indented with spaces / tabs / not at all, compact or wide separators, non-ASCII and non-BMP
+characters escaped or literal, every character escaped, key order, CRLF, padding; YAML block / flow / quoted / canonical / folded /
+commented / with document markers / written as JSON text; TOML tables, dotted keys, inline tables, quoted keys, literal / escaped /
+multi-line strings, comments). The harness itself checks with the format's decoder that each text decodes to exactly the tree.
 
 Observations: how the call ended (exception class), `model_dump()`, `generate.model_fields_set`, and the dict that reached
 validation (recorded by a stand-in around `model_validate`). pydantic's verdict is the `validate` parameter of the model: the
@@ -24,7 +35,9 @@ real pipeline produced.
 Specification on the implementation's observations: (S1) all spellings of one tree give the same `model_dump()`; (S2) the
 dict that reaches validation is the key-wise override (`mergeSpec`, Lean op `c17.spec`); (S3) every call ends normally or
 with the documented diagnostic (141 / 2 / 120) — never another exception class — and corrupted or insufficient
-configurations are refused.
+configurations are refused; (S4) in a history every request is answered as if it were the only one: an insufficient configuration
+is refused *every* time, the refusal names a key that is indeed missing (`generate`, or `generate.<generator>` without a section),
+and a `generate` that runs writes below the requesting context's output directories only.
 """
 from __future__ import annotations
 
@@ -48,6 +61,7 @@ THEOREMS = [_T + n for n in [
     "configure_fails_cleanly_partial", "configure_nonStringKey_counterexample", "configure_missing_first", "configure_ok_is_merge",
     "parse_unready_refused", "parse_without_generate_refused", "generate_unready_refused", "generate_unconfigured_refused",
     "generate_fails_cleanly_partial", "generate_glue_without_cpp_counterexample",
+    "history_free", "runReqs_length", "parse_refusal_names_missing", "parseStep_outcome", "generateStep_spec",
 ]]
 LEVEL = "proof"
 TRUSTED = [
@@ -213,7 +227,7 @@ def same_obs(a: dict, b: dict) -> bool:
 
 
 def brief(o: dict) -> dict:
-    return {k: v for k, v in o.items() if k in ("kind", "code", "cls", "site", "msg", "fields_set", "stage")}
+    return {k: v for k, v in o.items() if k in ("kind", "code", "cls", "site", "msg", "fields_set", "stage", "unprintable", "wrote")}
 
 
 # --------------------------------------------------------------------------------------------
@@ -250,8 +264,29 @@ def option_args(opts):
 FORMATS = [("yaml", cfgsys.to_yaml), ("yml", cfgsys.to_yaml), ("json", cfgsys.to_json), ("toml", cfgsys.to_toml)]
 
 
-def file_of(tree: dict, fmt: str, name="c") -> dict:
-    return {"name": f"{name}.{fmt}", "text": dict(FORMATS)[fmt](tree)}
+def file_of(tree: dict, fmt: str, name="c", style: str | None = None) -> dict:
+    """the tree as a file of the format; `style`: one of the lexical styles of the format (`cfgsys.STYLES`) instead of the
+    serialiser's default — the serialiser's default when the style cannot express this tree"""
+    text = cfgsys.styled(tree, fmt, style) if style else None
+    return {"name": f"{name}.{fmt}", "text": text if text is not None else dict(FORMATS)[fmt](tree)}
+
+
+def styled_variants(tree: dict, picks) -> list:
+    """(variant name, case) for (format, style) pairs: the same tree, written down differently"""
+    out = []
+    for fmt, style in picks:
+        text = cfgsys.styled(tree, fmt, style)
+        if text is not None:
+            out.append((f"{fmt}~{style}", {"file": {"name": f"c.{fmt}", "text": text}, "positional_only": True}))
+    return out
+
+
+def pick_styles(r: random.Random, n: int) -> list:
+    return [[fmt, st] for fmt in ("yaml", "json", "toml") for st in r.sample(sorted(cfgsys.STYLES[fmt]), min(n, len(cfgsys.STYLES[fmt])))]
+
+
+def rotate_styles(k: int) -> list:
+    return [[fmt, list(cfgsys.STYLES[fmt])[k % len(cfgsys.STYLES[fmt])]] for fmt in ("yaml", "json", "toml")]
 
 
 def split_leaves(r: random.Random, tree: dict, p=0.5):
@@ -363,7 +398,8 @@ def build_plan(ctx) -> Plan:
         r = random.Random(f"{seed}/c17/B/{i}")
         plain = i % 4 != 3
         tree = cfgsys.TreeGen(r, p_optional=r.choice([0.15, 0.35, 0.6]), plain=plain, p_edge=0.3).tree()
-        add_entry(P, {"part": "B", "tree": tree, "plain": plain, "rseed": f"{seed}/c17/B/{i}/v"}, f"B/{i}")
+        add_entry(P, {"part": "B", "tree": tree, "plain": plain, "rseed": f"{seed}/c17/B/{i}/v",
+                      "styles": pick_styles(random.Random(f"{seed}/c17/B/{i}/styles"), ctx.n(2, 5))}, f"B/{i}")
 
     # ---- C: file + override subsets -------------------------------------------------------------------------
     for i in range(ctx.n(160, 1500)):
@@ -374,7 +410,10 @@ def build_plan(ctx) -> Plan:
         base = {"generate": tg.generate_section(gens)}
         other = {"generate": tg.generate_section(gens + ([r.choice(gen_keys)] if r.random() < 0.3 else []))}
         over = cfgsys.from_leaves([l for l in cfgsys.leaves(other) if r.random() < r.choice([0.2, 0.5, 0.9])])
-        add_entry(P, {"part": "C", "base": base, "over": over, "fmt": r.choice(["yaml", "yml", "json", "toml"])}, f"C/{i}")
+        fmt = r.choice(["yaml", "yml", "json", "toml"])
+        rs = random.Random(f"{seed}/c17/C/{i}/style")
+        add_entry(P, {"part": "C", "base": base, "over": over, "fmt": fmt,
+                      "style": rs.choice(sorted(cfgsys.STYLES[fmt])) if rs.random() < 0.6 else None}, f"C/{i}")
 
     # ---- D: decision table -----------------------------------------------------------------------------------
     valid = {"generate": {"cpp": {"out": "o"}}}
@@ -412,14 +451,16 @@ def build_plan(ctx) -> Plan:
         for t in range(K):
             r = random.Random(f"{seed}/c17/G/{ui}/{t}")
             tree, marked = cfgsys.edge_tree(r, unit, t)
-            add_entry(P, {"part": "G", "tree": tree, "edge": [list(p) for p in marked]}, f"G/{'.'.join(unit[0])}/{t}")
+            styles = rotate_styles(t + ui) if ctx.quick else [x for k in range(4) for x in rotate_styles(t + ui + 4 * k + k)]
+            add_entry(P, {"part": "G", "tree": tree, "edge": [list(p) for p in marked], "styles": styles}, f"G/{'.'.join(unit[0])}/{t}")
         if not ctx.quick:   # one edge-valued setting at a time
             n_sites = len(cfgsys.edge_tree(random.Random(0), unit, 0)[1])
             for j in range(n_sites):
                 for t in range(K):
                     r = random.Random(f"{seed}/c17/G1/{ui}/{j}/{t}")
                     tree, marked = cfgsys.edge_tree(r, unit, (t - j) % K, only=j)
-                    add_entry(P, {"part": "G", "tree": tree, "edge": [list(p) for p in marked]}, f"G1/{'.'.join(unit[0])}/{j}/{t}")
+                    add_entry(P, {"part": "G", "tree": tree, "edge": [list(p) for p in marked], "styles": rotate_styles(t + 3 * j + ui)},
+                              f"G1/{'.'.join(unit[0])}/{j}/{t}")
 
     # ---- F: readiness lattice --------------------------------------------------------------------------------
     gen_keys = list(cfgsys.minimal_sections().keys())
@@ -441,7 +482,76 @@ def build_plan(ctx) -> Plan:
             add_entry(P, {"part": "F", "sections": sub, "idl": idl}, f"F/{','.join(sub)}/{idl}")
     add_entry(P, {"part": "F", "sections": None, "idl": "record"}, "F/no-generate/record")
     add_entry(P, {"part": "F", "sections": None, "idl": "empty"}, "F/no-generate/empty")
+
+    # ---- H: histories on one API object ----------------------------------------------------------------------
+    for label, h in gen_histories(ctx):
+        add_entry(P, {"part": "H", **h}, label)
     return P
+
+
+def gen_histories(ctx) -> list[tuple[str, dict]]:
+    """request sequences on ONE `API` object: several contexts (complete, partial — a target key with one of its generators'
+    sections missing —, without `generate` section), each asked to parse / generate any number of times in any interleaving,
+    contexts made anew in between.
+    Systematic: for every (target, missing generator) the same context asked repeatedly; a complete context of the same object
+    before / between / after; the context made anew; two complete contexts with different outputs taking turns. Then random ones."""
+    targets = live_targets_cached()
+    gen_keys = list(cfgsys.minimal_sections().keys())
+    idls = [k for k in cfgsys.IDLS if k != "empty"]
+    out = []
+    n = [0]
+
+    def add(label, contexts, steps):
+        out.append((f"H/{label}", {"contexts": contexts, "steps": steps, "idl": idls[n[0] % len(idls)]}))
+        n[0] += 1
+    partial = []
+    for t, gs in targets.items():
+        for g in gs:
+            if g != t:
+                partial.append((t, g, [x for x in gs if x != g]))
+    for t, g, rest in partial:
+        full = ["cpp"] + [x for x in targets[t] if x != "cpp"]
+        for extra in ([], ["cpp"]):
+            inc = extra + rest
+            add(f"{t}-without-{g}/repeated", [inc], [["parse", 0]] * 3)
+            add(f"{t}-without-{g}/anew", [inc], [["parse", 0], ["configure", 0], ["parse", 0], ["parse", 0]])
+            add(f"{t}-without-{g}/after-complete", [full, inc],
+                [["parse", 0], ["generate", 0, t, False], ["parse", 1], ["generate", 1, t, False], ["parse", 1], ["generate", 1, t, True], ["generate", 0, t, False]])
+            add(f"{t}-without-{g}/before-complete", [inc, full],
+                [["parse", 0], ["parse", 1], ["parse", 0], ["generate", 0, t, False], ["generate", 1, t, False], ["parse", 0]])
+            add(f"{t}-without-{g}/between", [inc, full, inc],
+                [["parse", 0], ["parse", 2], ["parse", 1], ["parse", 2], ["generate", 2, t, False], ["parse", 0], ["generate", 0, t, False], ["generate", 1, t, True]])
+    for t in targets:
+        a = sorted(set(["cpp"] + targets[t]), key=gen_keys.index)
+        b = sorted(set(a + ["yaml"]), key=gen_keys.index)
+        add(f"{t}/two-complete-take-turns", [a, b],
+            [["parse", 0], ["parse", 1], ["generate", 0, t, False], ["generate", 1, t, False], ["generate", 0, t, True], ["generate", 1, "yaml", False],
+             ["generate", 0, "yaml", False], ["generate", 0, "bogus", False], ["generate", 1, t, False]])
+        add(f"{t}/same-context-repeated", [a], [["parse", 0], ["generate", 0, t, False], ["generate", 0, t, False], ["parse", 0], ["generate", 0, t, True],
+                                                ["generate", 0, "yaml", False], ["generate", 0, "yaml", True]])
+    add("no-generate/repeated", [None, ["cpp"]], [["parse", 0], ["parse", 0], ["parse", 1], ["parse", 0], ["generate", 1, "cpp", False], ["generate", 0, "cpp", False]])
+    # random histories
+    pool = [None, [], ["cpp"], ["yaml"], ["cpp", "yaml"], gen_keys] + [["cpp"] + rest for _, _, rest in partial] + [rest for _, _, rest in partial] \
+        + [sorted(set(["cpp"] + gs), key=gen_keys.index) for gs in targets.values()] + [list(gs) for gs in targets.values() if len(gs) > 1]
+    tnames = list(targets) + ["bogus", "jni"]
+    for i in range(ctx.n(70, 900)):
+        r = random.Random(f"{ctx.seed}/c17/H/{i}")
+        k = r.choice([1, 2, 2, 3, 3, 4])
+        contexts = [r.choice(pool) if r.random() < 0.8 else [g for g in gen_keys if r.random() < 0.5] for _ in range(k)]
+        steps = []
+        for _ in range(r.choice([3, 5, 7, 10])):
+            c = r.randrange(k)
+            x = r.random()
+            if x < 0.45:
+                steps.append(["parse", c])
+            elif x < 0.53:
+                steps.append(["configure", c])
+            else:
+                secs = contexts[c] or []
+                own = [t for t in targets if t in secs]
+                steps.append(["generate", c, r.choice(own) if own and r.random() < 0.7 else r.choice(tnames), r.random() < 0.3])
+        out.append((f"H/random/{i}", {"contexts": contexts, "steps": steps, "idl": r.choice(idls + ["empty"])}))
+    return out
 
 
 def ready_options(sections):
@@ -469,6 +579,7 @@ def add_entry(P: Plan, e: dict, label: str):
         vs = [("dict", {"options": tree})]
         for fmt, _ in FORMATS:
             vs.append((fmt, {"file": file_of(tree, fmt), "positional_only": True}))
+        vs += styled_variants(tree, e.get("styles") or [])
         if e["plain"] and not cfgsys.has_empty_dict(tree):
             opts = cfgsys.to_opts(tree)
             if opts is not None:
@@ -512,6 +623,7 @@ def add_entry(P: Plan, e: dict, label: str):
         vs = [("dict", {"options": tree})]
         for fmt, _ in FORMATS:
             vs.append((fmt, {"file": file_of(tree, fmt), "positional_only": True}))
+        vs += styled_variants(tree, e.get("styles") or [])
         a, b = split(lambda l: cfgsys.opt_text(l[1]) is not None)
         if a:
             vs.append(("file+opts", {"file": file_of(b, "json"), "cli_opts": cfgsys.to_opts(a)}))
@@ -530,7 +642,7 @@ def add_entry(P: Plan, e: dict, label: str):
             it["variants"].append({"name": name, "case": case, "job": P.job("configure", case), "req": P.req(model_request(case))})
     elif part == "C":
         base, over, fmt = e["base"], e["over"], e["fmt"]
-        f = file_of(base, fmt)
+        f = file_of(base, fmt, style=e.get("style"))
         vs = [("file+dict", {"file": f, "options": over})]
         oo = cfgsys.to_opts(over)
         if oo is not None and not cfgsys.has_empty_dict(over) and over:
@@ -564,6 +676,10 @@ def add_entry(P: Plan, e: dict, label: str):
         it["job"] = P.job("ready", case)
         it["req"] = P.req({"op": "c17.ready", "set": (["support_lib_sources"] + e["sections"]) if e["sections"] is not None else None,
                            "kinds": KIND_OF_IDL[e["idl"]], "targets": READY_TARGETS})
+    elif part == "H":
+        it["job"] = P.job("history", {"contexts": e["contexts"], "steps": e["steps"], "idl": e["idl"]})
+        it["req"] = P.req({"op": "c17.history", "contexts": [(["support_lib_sources"] + c) if c is not None else None for c in e["contexts"]],
+                           "kinds": KIND_OF_IDL[e["idl"]], "steps": [st[:3] for st in e["steps"]]})
     else:
         raise ValueError(part)
     P.items.append(it)
@@ -573,12 +689,15 @@ def run(ctx):
     ctx.coverage["rule"] = ("A: distinct option lists; B: distinct (tree, spelling); C: distinct (base, override, spelling); D: every (file state, options class); "
                             "E: distinct (tree, corruption, source); F: distinct (generator subset, declaration kinds) x 7 target names x clean; "
                             "G: distinct (unit tree with an edge text in every free-text setting, spelling), all rotations = every (free-text setting, edge text) pair; "
+                            "B, C, G: a spelling includes the lexical style of the file (`format~style`); H: distinct (contexts, request sequence, IDL), one evaluation per request; "
                             "non-trivial = more than one option / more than the required keys / a non-empty override / a non-default file state / >= 1 generator section")
     ctx.assumptions += [
         "pydantic validation and the YAML/JSON/TOML decoders are parameters of the model; the harness uses the same libraries as oracle",
         "an empty list and a text that is itself bracketed have no `-o` spelling; an empty dict has no `-o`/environment spelling (hypotheses of sources_equivalent)",
         "environment variables are only compared for names below the sections generate/build/package (others are ignored by pydantic-settings)",
         "`.env` lines are written single-quoted: texts with a quote, a line break, a backslash or `${` are not given through the `.env` file",
+        "lexical styles: only texts that the format's own decoder (PyYAML safe_load / json / tomllib) reads back as exactly the tree are used",
+        "histories: contexts are made from options dicts; which context's settings the generators worked with is read off the output directories written",
     ]
     cfgsys.register("cliopts", lambda base, case: cfgsys.cli_options(case["args"]))
 
@@ -737,6 +856,8 @@ def evaluate(ctx, it, results, answers, orc, targets, breaks, spec):
         if incomplete:
             if not (parse["kind"] == "app" and parse["code"] == 141):
                 fail("readiness:incomplete-target-accepted", "a target whose generators are not all configured was accepted by parse", {"impl": parse})
+            elif not names_missing_key(parse.get("msg"), secs):
+                fail("readiness:refusal-names-no-missing-key", "the refusal of parse does not name a key that is missing from the configuration", {"impl": parse})
             return
         if parse["kind"] != "ok":
             fail("readiness:parse-refused", "parse refused a complete configuration", {"impl": parse})
@@ -765,8 +886,14 @@ def evaluate(ctx, it, results, answers, orc, targets, breaks, spec):
             elif not ready:
                 if not (g["kind"] == "app" and g["code"] == 141):
                     fail("readiness:unconfigured-target-accepted", "a target that is not fully configured was not refused with the configuration diagnostic", {"impl": g, "target": t})
+                elif not names_missing_key(g.get("msg"), secs):
+                    fail("readiness:refusal-names-no-missing-key", "the refusal of generate does not name a key that is missing from the configuration", {"impl": g, "target": t})
             elif g["kind"] != "ok" and "cpp" in secs:
                 fail("readiness:ready-target-refused", "a fully configured target was refused", {"impl": g, "target": t})
+        return
+
+    if part == "H":
+        evaluate_history(ctx, it, results, answers, targets, breaks, fail)
         return
 
     # ---- B, C, D, E: configure variants ----------------------------------------------------------------------
@@ -802,6 +929,9 @@ def evaluate(ctx, it, results, answers, orc, targets, breaks, spec):
             breaks.append({"what": "c17.configure + validation oracle vs API.configure", "entry": e, "variant": v["name"], "model": brief(exp), "impl": brief(o),
                            "model_tree": m.get("value")})
         # specification S3: clean failure
+        if o.get("unprintable"):
+            fail("config:diagnostic-cannot-be-rendered", f"the diagnostic configure raised cannot be rendered as a message ({o['unprintable']}: {o['msg'][:150]})",
+                 {"variant": v["name"], "case": case, "impl": brief(o)})
         if o["kind"] == "crash":
             fail(crash_key(part, e, v, case, o), f"configure ended in {o['cls']} ({o['msg'][:150]}) instead of a configuration diagnostic",
                  {"variant": v["name"], "case": case, "impl": brief(o)})
@@ -829,7 +959,7 @@ def evaluate(ctx, it, results, answers, orc, targets, breaks, spec):
                 if o["kind"] == "ok":
                     la, lb = dict(cfgsys.leaves(ref["dump"])), dict(cfgsys.leaves(o["dump"]))
                     diff = [(".".join(k), la.get(k), lb.get(k)) for k in sorted(set(la) | set(lb)) if la.get(k) != lb.get(k)][:5]
-                fail(f"sources:{re.sub('[^a-z+]', '', v['name'].lower())}-differs", f"the spelling '{v['name']}' yields a different effective configuration than the options dict",
+                fail(f"sources:{re.sub('[^a-z+]', '', v['name'].split('~')[0].lower())}-differs", f"the spelling '{v['name']}' yields a different effective configuration than the options dict",
                      {"variant": v["name"], "case": v["case"], "impl": brief(o), "differences": diff})
     elif part == "C":
         for v, o in zip(it["variants"], obs):
@@ -857,6 +987,102 @@ def evaluate(ctx, it, results, answers, orc, targets, breaks, spec):
                 fail(f"config:{kind}-accepted", f"a configuration corrupted by '{kind}' was accepted", {"corruption": kind, "impl": brief(o)})
         elif o["kind"] == "app" and o["code"] != 141:
             fail("config:corruption-wrong-code", f"corruption '{kind}' refused with {o['code']}, not the configuration diagnostic", {"impl": brief(o)})
+
+
+def named_keys(msg: str | None) -> list[str]:
+    """the configuration paths below `generate` that a diagnostic names"""
+    return re.findall(r"\bgenerate(?:\.\w+)*(?!\w)", msg or "")
+
+
+def names_missing_key(msg, secs) -> bool:
+    """does the diagnostic name a key that is indeed missing from the configuration (`generate` itself, or `generate.<k>` without a section)?"""
+    for k in named_keys(msg):
+        parts = k.split(".")
+        if secs is None or (len(parts) >= 2 and parts[1] not in secs):
+            return True
+    return False
+
+
+def evaluate_history(ctx, it, results, answers, targets, breaks, fail):
+    e = it["entry"]
+    res, m = results[it["job"]], answers[it["req"]]["answers"]
+    contexts, steps = e["contexts"], e["steps"]
+    ctx.count(key="H:" + json.dumps([contexts, steps, e["idl"]]), nontrivial=len(steps) > 1,
+              sample={"contexts": contexts, "steps": steps, "idl": e["idl"], "impl": [brief(o) for o in res["steps"]][:4]}, n=len(steps))
+    for i, conf in enumerate(res["configure"]):
+        if conf["kind"] != "ok":
+            fail("readiness:configure-refused", "a configuration with valid generator sections was refused", {"impl": conf, "context": i})
+            return
+    nonempty = bool(KIND_OF_IDL[e["idl"]])
+    for i, (st, o, a) in enumerate(zip(steps, res["steps"], m)):
+        op, c = st[0], st[1]
+        secs = contexts[c]
+        where = {"step": i, "request": st, "impl": brief(o), "before": steps[:i]}
+        again = "" if st not in steps[:i] else " (asked before in this history)"
+        ctx.stat(f"H_{op}_{o['kind']}")
+        # ---- correspondence -------------------------------------------------------------------------------
+        mo = a["outcome"]
+        if op == "configure":
+            same = o["kind"] == "ok" and mo is None
+        elif mo is None:
+            same = o["kind"] == "skipped"
+        else:
+            same = mo["kind"] == o["kind"] and (mo["kind"] != "app" or mo["code"] == o.get("code"))
+            if same and a["named"] is not None and a["named"] not in named_keys(o.get("msg")):
+                same = False
+            if same and op == "generate" and o["kind"] == "ok" and (o["wrote"] != a["used"] if nonempty else not set(o["wrote"]) <= set(a["used"])):
+                same = False
+        if not same:
+            breaks.append({"what": "c17.history (runReqs) vs the request sequence on one API object", "entry": e, "step": i, "model": a, "impl": brief(o),
+                           "wrote": o.get("wrote")})
+        # ---- specification (from the sections of the requesting context alone) ---------------------------------
+        if op == "configure":
+            if o["kind"] != "ok":
+                fail("readiness:configure-refused", "making a context anew from the same valid settings was refused", where)
+            continue
+        incomplete = secs is None or any(t in secs and any(g not in secs for g in gs) for t, gs in targets.items())
+        if op == "parse":
+            if o["kind"] == "crash":
+                key = "readiness:no-generate-section-crash" if secs is None else ("readiness:missing-generator-section-crash" if incomplete else "readiness:parse-crash")
+                fail(key, f"parse ended in {o['cls']} ({o['msg'][:120]}) instead of the configuration diagnostic{again}", where)
+            elif incomplete:
+                if not (o["kind"] == "app" and o["code"] == 141):
+                    fail("readiness:incomplete-target-accepted", f"a target whose generators are not all configured was accepted by parse{again}", where)
+                elif not names_missing_key(o.get("msg"), secs):
+                    fail("readiness:refusal-names-no-missing-key", f"the refusal of parse does not name a key that is missing from the configuration{again}", where)
+            elif o["kind"] != "ok":
+                fail("readiness:parse-refused", f"parse refused a complete configuration{again}", where)
+            continue
+        if o["kind"] == "skipped":
+            continue
+        t = st[2]
+        ready = secs is not None and t in targets and t in secs and all(x in secs for x in targets[t])
+        if o["kind"] == "crash":
+            if t not in targets:
+                key = "readiness:unknown-target-crash"
+            elif not ready:
+                key = "readiness:clean-unconfigured-crash" if st[3] else "readiness:unconfigured-crash"
+            elif "cpp" not in secs:
+                key = "readiness:glue-without-cpp"
+            else:
+                key = "readiness:generate-crash"
+            fail(key, f"generate('{t}', clean={st[3]}) ended in {o['cls']} ({o['msg'][:120]}) instead of a diagnostic{again}", {**where, "target": t})
+        elif t not in targets:
+            if not (o["kind"] == "app" and o["code"] == 120):
+                fail("readiness:unknown-target-accepted", "an unknown target name was not refused as unknown target", {**where, "target": t})
+        elif not ready:
+            if not (o["kind"] == "app" and o["code"] == 141):
+                fail("readiness:unconfigured-target-accepted", f"a target that is not fully configured was not refused with the configuration diagnostic{again}", {**where, "target": t})
+            elif not names_missing_key(o.get("msg"), secs):
+                fail("readiness:refusal-names-no-missing-key", f"the refusal of generate does not name a key that is missing from the configuration{again}", {**where, "target": t})
+        elif o["kind"] != "ok":
+            if "cpp" in secs:
+                fail("readiness:ready-target-refused", f"a fully configured target was refused{again}", {**where, "target": t})
+        elif [x for x in o["wrote"] if x != c]:
+            fail("history:generated-with-another-contexts-settings", f"generate('{t}') of context {c} wrote below the output directories of context(s) "
+                 f"{[x for x in o['wrote'] if x != c]}: the generators worked with another context's settings", {**where, "target": t, "wrote": o["wrote"]})
+        elif nonempty and o["wrote"] != [c]:
+            fail("history:nothing-generated", f"generate('{t}') of context {c} ended normally but wrote nothing below its output directories", {**where, "target": t})
 
 
 def crash_key(part, e, v, case, o) -> str:
